@@ -9,19 +9,12 @@ arrays: the array element `Expr.out k e` is `Output(parent, parent.outputs[k])`,
 has `outputs = fluentOutputs N`.
 -/
 import EkwVerif.Model.Fluent
+import EkwVerif.Model.YieldRef
 import EkwVerif.Props.C10
 
 namespace EkwVerif.Runner
 open EkwVerif.Lower EkwVerif.Fluent
 open Aux
-
-/-- how a consumer built on the array element `e` refers to it in the serialised graph: an element of a yields
-dimension is `Output(parent, parent.outputs[k])`, i.e. the input reference `(parent, outputs[k])`; any other element is
-the node itself (its default output). `nameOf` = the names the nodes got (C14's subject), `N` = `num_outputs` of the
-generator nodes. -/
-def refOf (nameOf : Expr → String) (N : Nat) : Expr → InRef
-  | .out k e => .named (nameOf e) ((fluentOutputs N).getD k "")
-  | e => .dflt (nameOf e)
 
 namespace Aux
 theorem fluentOutputs_getD (N k : Nat) (hN : 2 ≤ N) (hk : k < N) : (fluentOutputs N).getD k "" = toString k := by
@@ -51,7 +44,15 @@ end Aux
 3. whenever that node — named `nameOf (a.node ix)`, built by `fluent.Node` with `num_outputs = N`, lowered to `t` — runs
    and its generator yields `ys` (N picklable values), the dataset by which every consumer of that array element refers to
    it holds `ys[k]`.
-Hence a consumer placed at coordinate `ls[k]` reads the k-th yielded value — for every N, also N > 10. -/
+Hence a consumer placed at coordinate `ls[k]` reads the k-th yielded value — for every N, also N > 10.
+What is proved and what is convention: conjuncts 1 and 2 unfold `withYields` (the model of `Action.__init__`); conjunct 3
+is `c10_yield_binding_fluent` read through `refOf`, which is a DEFINITION (Model/YieldRef.lean) stating the convention
+"`Expr.out k e` is `Output(parent, parent.outputs[k])`" -- the meaning of the list comprehension
+`[x.get_output(out) for out in x.outputs]` under `apply_ufunc`, not derived from a model of xarray. That convention is
+tied to the real `Action.__init__` only by the correspondence check (cases of kind `prog`, 1..14 coordinates in the
+author's order: driver op `ref_of` -- the element of the real node array found at LABEL `coords[k]` is an `Output` of
+the generator node whose name is the model's `(withYields …).node` read through `refOf` -- and the oracle: a consumer
+built there must receive the k-th value its source yields). -/
 theorem c10_yield_coordinate (a : NodeArray) (y : String) (ls : List Coord) (hN : 2 ≤ ls.length)
     (hfresh : ∀ d ∈ a.dims, d.name ≠ y) (nameOf : Expr → String) (ix : Ix) (hk : ix y < ls.length) :
     ((withYields a (some (y, ls))).findDim y).map (·.labels) = some ls ∧
@@ -81,5 +82,9 @@ example : (refOf (fun _ => "g") 12
     ((withYields (fromSource [("x", [.int 0])] 0)
       (some ("y", [.int 30, .int 10, .int 20, .int 40, .int 50, .int 60, .int 70, .int 80, .int 90, .int 100, .int 110, .int 5]))).node
         (fun d => if d = "y" then 10 else 0))).source = ⟨"g", "10"⟩ := by decide
+
+/-- the reference the driver op `ref_of` answers (compared with the real node array by the tie) is the dataset of
+conjunct 3 -/
+example : (yieldRef "g" 12 10).source = ⟨"g", "10"⟩ ∧ (yieldRef "g" 1 0).source = ⟨"g", "0"⟩ := by decide
 
 end EkwVerif.Runner
